@@ -138,13 +138,22 @@ Definition check_C02_group (x : gctx) (calls : list call) (post : gstate) : bool
 (* ---------- C03 ---------- *)
 Definition in_class (l : list node) (name : id) : bool := existsb (fun n => n_name n =? name) l.
 
+(* nodes the scan listed as untainted, read back successfully, and whose API-server copy already carries the escalator
+   taint (the lister lags): they are not written, but they are no longer schedulable either *)
+Definition ok_got_names (calls : list call) : list id :=
+  concat (map (fun c => match c with CK (KGet n true) => [n] | _ => [] end) calls).
+Definition api_has_esc (x : gctx) (name : id) : bool :=
+  match api_copy x name with Some u => has_esc u | None => false end.
+Definition found_tainted (x : gctx) (calls : list call) : list id :=
+  filter (fun m => in_class (c_untainted (x_cls x)) m && api_has_esc x m) (ok_got_names calls).
+
 Definition check_C03_group (x : gctx) (calls : list call) : bool :=
   let t := taint_ok_targets x calls in
   let u := zlen (c_untainted (x_cls x)) in
   (* taint receivers are distinct members of the untainted class of the view *)
   nodupb t && forallb (in_class (c_untainted (x_cls x))) t
-  (* at least min_nodes stay untainted *)
-  && (match t with [] => true | _ => x_min x <=? u - zlen t end)
+  (* at least min_nodes of the nodes seen untainted stay untainted: neither written nor found already tainted on read-back *)
+  && (match t with [] => true | _ => x_min x <=? u - zlen t - zlen (found_tainted x calls) end)
   (* below the minimum (node count within bounds): nothing is tainted *)
   && (if (x_min x <=? zlen (x_nodes x)) && (zlen (x_nodes x) <=? x_max x) && (u <? x_min x)
       then negb (existsb (is_taint_write x) calls) else true).
